@@ -571,7 +571,9 @@ impl<C: CrcCalculator> Encapsulator<C> {
             encap_status = EncapStatus::CompletedPkt(buffer_offset as u16);
         }
         // if a fragment of the rest fits in the buffer
-        else if buffer_len > FIXED_HEADER_LEN + FRAG_ID_LEN {
+        // (when only the CRC is left, an intermediate packet would carry nothing: wait for a
+        // buffer that can hold the end packet)
+        else if buffer_len > FIXED_HEADER_LEN + FRAG_ID_LEN && pdu_len_remaining > 0 {
             let gse_len: usize;
 
             // a GSE packet cannot be longer than GSE_LEN_MAX + FIXED_HEADER_LEN, whatever the buffer
@@ -975,7 +977,8 @@ pub fn encap_frag_preview(
         pkt_len = buffer_offset as u16;
     }
     // if a fragment of the rest fits in the buffer
-    else if buffer_len > FIXED_HEADER_LEN + FRAG_ID_LEN {
+    // (when only the CRC is left, an intermediate packet would carry nothing)
+    else if buffer_len > FIXED_HEADER_LEN + FRAG_ID_LEN && pdu_len_remaining > 0 {
         let gse_len: usize;
 
         // a GSE packet cannot be longer than GSE_LEN_MAX + FIXED_HEADER_LEN, whatever the buffer
